@@ -312,7 +312,7 @@ class Env:
 ADAPTERS = re.compile(
     r"^(core::option::Option::(as_ref|as_deref|as_mut|map|copied|cloned|unwrap_or_default|unwrap_or|ok_or|ok_or_else|and_then|filter|unwrap_or_else|transpose|take|or|or_else)"
     r"|core::result::Result::(as_ref|map|map_err|ok|and_then|unwrap_or_default|transpose)"
-    r"|core::str::<impl str>::(as_bytes|as_ref|trim)|alloc::string::String::(as_str|as_bytes)"
+    r"|core::str::<impl str>::(as_bytes|as_ref|trim)|str::(as_bytes|as_ref|trim|as_str)|alloc::string::String::(as_str|as_bytes)"
     r"|core::clone::Clone::clone|alloc::borrow::ToOwned::to_owned|alloc::string::ToString::to_string"
     r"|core::convert::(Into::into|From::from|AsRef::as_ref)|core::ops::deref::Deref(Mut)?::deref(_mut)?"
     r"|alloc::vec::Vec::<.*>::as_slice|core::borrow::Borrow::borrow|alloc::borrow::Cow::<.*>::(as_ref|into_owned)"
@@ -321,7 +321,7 @@ ADAPTERS = re.compile(
 )
 
 
-def origins(n, env, adapters=ADAPTERS, extra=None, depth=0, seen=None, sel=()):
+def origins(n, env, adapters=ADAPTERS, extra=None, depth=0, seen=None, sel=(), accessors=None):
     """Set of root origins of the value of expression `n` (optionally of its sub-component `sel`):
        ('param', name, path...) | ('call', fn) | ('lit', value) | ('def', path) | ('other', kind)
     Field accesses / destructuring paths are kept as suffixes on param/local roots: ('param', 'options', 'nonce')."""
@@ -334,7 +334,7 @@ def origins(n, env, adapters=ADAPTERS, extra=None, depth=0, seen=None, sel=()):
     k = n.get("k")
 
     def rec(x, sel_=sel, seen_=None):
-        return origins(x, env, adapters, extra, depth + 1, seen if seen_ is None else seen_, sel_)
+        return origins(x, env, adapters, extra, depth + 1, seen if seen_ is None else seen_, sel_, accessors)
 
     t = try_inner(n)
     if t is not None:
@@ -383,15 +383,39 @@ def origins(n, env, adapters=ADAPTERS, extra=None, depth=0, seen=None, sel=()):
             for a_ in n["args"]:
                 out |= rec(a_, ())
             return out or {("ctor", vn)}
+        if accessors is not None and (accessors.search(base) or accessors.search(nm)) and call_args(n):
+            # getter: treated like a field access on the receiver
+            return rec(call_args(n)[0], (nm.rsplit("::", 1)[-1],) + tuple(sel))
         if (adapters is not None and (adapters.search(base) or adapters.search(nm))) or (extra is not None and (extra.search(base) or extra.search(nm))):
             args = call_args(n)
             if args:
-                # adapters: value derives from the receiver; closures passed as arguments are ignored here
                 sel2 = tuple(x for x in sel if x not in ("Some", "Ok", "0")) if sel and sel[0] in ("Some", "Ok") else sel
-                out |= rec(args[0], sel2)
+                mname = base.rsplit("::", 1)[-1]
+                recv_o = rec(args[0], sel2)
+                if mname in ("map", "and_then") and len(args) >= 2:
+                    f = strip(args[1])
+                    if f.get("k") == "closure":
+                        body_o = rec(f["body"], ())
+                        for o in body_o:
+                            if o[0] == "closure_param" and o[1] == f["def"]:
+                                for ro in recv_o:
+                                    out.add(ro + tuple(o[3:]) if ro[0] in ("param", "local") else ro)
+                            else:
+                                out.add(o)
+                        return out
+                    if f.get("k") == "path" and "def" in f.get("res", {}):
+                        fd = f["res"]["def"]
+                        if accessors is not None and accessors.search(fd):
+                            return {ro + (fd.rsplit("::", 1)[-1],) if ro[0] in ("param", "local") else ro for ro in recv_o}
+                        if (adapters is not None and adapters.search(fd)) or (extra is not None and extra.search(fd)):
+                            return recv_o
+                        return {("call", fd)}
+                out |= recv_o
                 for extra_arg in args[1:]:
                     ea = strip(extra_arg)
-                    if ea.get("k") not in ("closure", "path", "lit"):
+                    if ea.get("k") == "closure" and mname in ("unwrap_or_else", "or_else"):
+                        out |= rec(ea["body"], ())
+                    elif ea.get("k") not in ("closure", "path", "lit"):
                         out |= rec(extra_arg, ())
                 return out
         return {("call", nm)}
@@ -759,3 +783,34 @@ def exits(h):
             enc_closure = False
             out.append(x["e"])
     return [(n, outcome(n)) for n in out]
+
+
+def param_roots(expr, env):
+    """Over-approximate set of parameter names that the expression may depend on: every variable mentioned anywhere under it
+    (closure bodies included), followed transitively through the initialisers of local bindings."""
+    roots = set()
+    seen = set()
+    work = [expr]
+    while work:
+        e = work.pop()
+        for x in walk(e):
+            if x.get("k") == "path" and "local" in x.get("res", {}):
+                bid = x["res"]["id"]
+                if bid in seen:
+                    continue
+                seen.add(bid)
+                if bid in env.params:
+                    roots.add(env.params[bid][0])
+                else:
+                    for (d, _p) in env.defs.get(bid, []):
+                        if isinstance(d, dict) and d.get("k") != "closure_param":
+                            work.append(d)
+    return roots
+
+
+def local_name(n):
+    """Name of the local variable an expression denotes (through &, *, casts), else None."""
+    n = strip(n)
+    if isinstance(n, dict) and n.get("k") == "path" and "local" in n.get("res", {}):
+        return n["res"]["local"]
+    return None
